@@ -44,7 +44,13 @@ def border_job(job):
     size = n + 1
     doc = Document(num_rows=size, num_cols=size, num_header_rows=0, num_header_cols=0)
     tb = doc.sheets[0].tables[0]
-    if merged:
+    if merged == 2:
+        from ..wb import colname
+        # a merged rectangle whose OUTER edge is the line under test: the cells that own the edges (all but the last one) are its first
+        # row / column - anchor and placeholders; the table is one line longer so that the rectangle is two lines deep
+        if line + 1 < size:
+            tb.merge_cells("A%d:%s%d" % (line + 1, colname(n - 2), line + 2) if orient == "h" else "%s1:%s%d" % (colname(line), colname(line + 1), n - 1))
+    elif merged:
         from ..wb import colname
         # a merged rectangle next to, but not on, the edges under test (they are in columns/rows 0..n-1)
         tb.merge_cells("%s1:%s2" % (colname(n), colname(n)) if orient == "h" else "A%d:B%d" % (n + 1, n + 1))
@@ -417,7 +423,7 @@ def run(ctx):
         line = rng.choice([0, 1, 2, N])      # the table's outer edge, inner lines, the last line (beyond the last cell: bottom/right edge)
         if line == N:
             line = N - 1 if rng.random() < 0.5 else 2
-        jobs.append((i, h, orient, line, N, ctx.seed * 3 + i, ctx.scratch, i % 5 == 0))
+        jobs.append((i, h, orient, line, N, ctx.seed * 3 + i, ctx.scratch, 1 if i % 5 == 0 else 2 if i % 5 in (1, 3) else 0))
     btr = fixtures.pmap(border_job, jobs, ctx.workers, chunksize=4)
     ctx.evaluations += len(btr)
     for t in btr:
